@@ -4,7 +4,7 @@ P="$1"; TESTS="$2"; PFX="${3:-mut}"; TAG="${4:-m}"; low=$(echo "$P" | tr 'A-Z' '
 cd "$(dirname "$0")/.."
 for d in /tmp/${PFX}_${low}_out/[0-9]*; do
   i=$(basename "$d"); id="$P-$TAG$i"; mkdir -p "seeded/$id"
-  cp "$d/patch.diff" "$d/demo.py" "seeded/$id/"; cp "$d/README.txt" "seeded/$id/README.txt" 2>/dev/null
+  cp "$d"/*.diff "$d"/*.py "$d"/*.pem "$d"/README.txt "seeded/$id/" 2>/dev/null
   [ -f "seeded/$id/meta.json" ] || cat > "seeded/$id/meta.json" <<M
 {"id": "$id", "properties": ["$P"], "origin": "independent sub-agent given only the property record and a scratch worktree of /repo",
  "needs": "see README.txt", "what_ran": "tools/seedverify.py $id $TESTS ; tools/seeded.py run $id --seeds 1,2,3"}
